@@ -145,7 +145,19 @@ def r1(ctx):
     asg = [a_ for a_ in walk_no_nested(mo) if isinstance(a_, ast.Assign)]
     ok = ok and bool(asg) and all(isinstance(a_.value, ast.Call) and dotted(a_.value.func) == 'sorted' for a_ in asg) and \
         any('_merge_overlapping_ranges(' in src(a_.value) for a_ in asg)
-    ctx.emit('C17-R1', ok, BINCOUNTS, mo, 'merge_overlapping_ranges sorts and merges until no overlap remains', key='merge-fixpoint', nontrivial=False)
+    if not ok:
+        sem = _merge_by_interpretation(ctx, mo)
+        if sem is not None:
+            okm, ncase, wit = sem
+            ctx.counters['abstract_cases'] += ncase
+            ctx.emit('C17-R1', okm, BINCOUNTS, mo, f'merge_overlapping_ranges interpreted on {ncase} lists of up to three ranges over 0..5: ' +
+                     ('the result is sorted, free of overlaps and covers exactly the positions of the input' if okm else f'differs: {wit}'), key='merge-fixpoint', witness=wit,
+                     what='merge_overlapping_ranges: result overlaps / loses / adds blacklisted positions')
+            return_after_merge = True
+        else:
+            return_after_merge = False
+    if ok or not locals().get('return_after_merge'):
+        ctx.emit('C17-R1', ok, BINCOUNTS, mo, 'merge_overlapping_ranges sorts and merges until no overlap remains', key='merge-fixpoint', nontrivial=False, undecided=not ok)
     # blacklisted_binning uses them
     b = ctx.fn(BINCOUNTS, FN)
     ok = any(isinstance(c, ast.Call) and dotted(c.func) == 'trim_rangelist' and [src(a) for a in c.args] == ['blacklist', b.args.args[0].arg, b.args.args[1].arg] for c in walk_no_nested(b)) \
@@ -182,6 +194,52 @@ def _fill_range_loops(outer):
             if len(dd) == 1 and 'fill_range' in src(dd[0]) and not isinstance(dd[0], (ast.ListComp, ast.GeneratorExp)):
                 out.append((l, it.id))
     return out
+
+
+def _merge_by_interpretation(ctx, mo):
+    import itertools
+    from ..consteval import run_function, Unfoldable, Raised
+    mod = ctx.ix.module(BINCOUNTS)
+    fns = {q: d[0] for q, d in mod.defs.items() if '.' not in q and isinstance(d[0], ast.FunctionDef)}
+
+    def hook(ev, call, env):
+        d = dotted(call.func) or ''
+        if d in fns and d != mo.name:
+            return run_function(fns[d], [ev.ev(x, env) for x in call.args], {k.arg: ev.ev(k.value, env) for k in call.keywords if k.arg}, budget=40000, call_hook=hook)
+        return NotImplemented
+    ranges = [(a, b) for a in range(0, 6) for b in range(a + 1, 6)]
+    n = 0
+    try:
+        for k in (1, 2, 3):
+            for combo in itertools.product(ranges, repeat=k):
+                if k == 3 and not combo[0] <= combo[1]:
+                    continue
+                n += 1
+                got = run_function(mo, [list(combo)], budget=80000, call_hook=hook)
+                got = [tuple(x) for x in list(got)]
+                cover = sorted({p for a, b in combo for p in range(a, b)})
+                gcover = sorted({p for a, b in got for p in range(a, b)})
+                overlaps = any(x[1] > y[0] for x, y in zip(sorted(got), sorted(got)[1:]))
+                if gcover != cover or overlaps or got != sorted(got):
+                    return (False, n, {'input': list(combo), 'result': got, 'problem': 'overlapping ranges remain' if overlaps else ('not sorted' if got != sorted(got) else 'covered positions differ')})
+    except (Unfoldable, Raised):
+        return None
+    except Exception:
+        return None
+    return (True, n, None)
+
+
+def _cursor_aliases(outer, cur):
+    """locals of the interval loop that are copies of the cursor taken before the bins of the gap are laid out (`gap_start = current`)"""
+    return {a.targets[0].id for a in walk_no_nested(outer) if isinstance(a, ast.Assign) and len(a.targets) == 1 and isinstance(a.targets[0], ast.Name)
+            and isinstance(a.value, ast.Name) and a.value.id == cur}
+
+
+def _canon_cursor(text, outer, cur):
+    import re
+    for al in _cursor_aliases(outer, cur):
+        text = re.sub(rf'\b{re.escape(al)}\b', cur, text)
+    return text
 
 
 def _cursor_name(f, outer):
@@ -385,8 +443,15 @@ def r2(ctx):
     ctx.exhaustive['C17-R2'] = True
     # the bins themselves: yielded (pos_s, pos_e) come from fill_range(current, start, local_bin_size); current follows the bins
     it = inner.iter
+    base_it = it
+    while isinstance(base_it, ast.Call) and dotted(base_it.func) in ('enumerate', 'iter', 'list', 'tuple') and base_it.args:
+        base_it = base_it.args[0]
+    if isinstance(base_it, ast.Name):
+        dd_ = [a_.value for a_ in walk_no_nested(outer) if isinstance(a_, ast.Assign) and len(a_.targets) == 1 and src(a_.targets[0]) == base_it.id]
+        if len(dd_) == 1:
+            it = dd_[0]
     fr = [c for c in walk_no_nested(it) if isinstance(c, ast.Call) and dotted(c.func) == 'fill_range']
-    ok = len(fr) == 1 and [src(a) for a in fr[0].args[:2]] == [cur, bl_start]
+    ok = len(fr) == 1 and [_canon_cursor(src(a), outer, cur) for a in fr[0].args[:2]] == [cur, bl_start]
     # every way through one blacklist interval leaves `current` at the end of that interval (a bin count below zero cannot happen: it is a
     # len()); inside the bin loop `current` is at most advanced to the end of the bin just emitted
     from ..util import explore, mk_atoms
@@ -439,9 +504,13 @@ def r3(ctx):
     lb = lbs[0] if len(lbs) == 1 else None
     bl_start = _pair_target(outer)[0]
     cur = _cursor_name(f, outer)
-    ok = tb is not None and lb is not None and f'fill_range({cur}, ' + bl_start + ', bin_size)' in src(tb.value) and \
-        src(lb.value).replace(' ', '') in (f'int(({bl_start}-{cur})/total_bins)', f'({bl_start}-{cur})//total_bins')
-    okuse = 'local_bin_size' in src(inner.iter)
+    ok = tb is not None and lb is not None and f'fill_range({cur}, ' + bl_start + ', bin_size)' in _canon_cursor(src(tb.value), outer, cur) and \
+        _canon_cursor(src(lb.value), outer, cur).replace(' ', '') in (f'int(({bl_start}-{cur})/total_bins)', f'({bl_start}-{cur})//total_bins')
+    it_src = src(inner.iter)
+    if isinstance(inner.iter, ast.Name):
+        dd_ = [a_.value for a_ in walk_no_nested(outer) if isinstance(a_, ast.Assign) and len(a_.targets) == 1 and src(a_.targets[0]) == inner.iter.id]
+        it_src = src(dd_[0]) if len(dd_) == 1 else it_src
+    okuse = 'local_bin_size' in it_src
     ctx.emit('C17-R3', ok and okuse, BINCOUNTS, lb if lb is not None else outer, f'equalised bin size `{src(lb.value) if lb is not None else None}` with total_bins = `{src(tb.value) if tb is not None else None}` is used by the bin loop',
              key='local-bin-size')
     # interval analysis: the bin count is >= 1 wherever it divides (len() >= 0 refined by the guards / max() on the way)
@@ -669,7 +738,9 @@ def r7(ctx):
     calls = [c for c in walk_no_nested(l) if isinstance(c, ast.Call) and dotted(c.func) == FN]
     ctx.need('C17-R7', len(calls), 1, 'blacklisted_binning calls in the contig loop')
     for c in calls:
-        bl = [k.value for k in c.keywords if k.arg == 'blacklist'] or c.args[3:4]
+        from ..util import call_kwargs
+        kw_ = call_kwargs(f, c)
+        bl = ([kw_['blacklist']] if 'blacklist' in kw_ else []) or c.args[3:4]
         if not bl:
             ctx.emit('C17-R7', False, BINCOUNTS, c, 'blacklisted_binning is called without a blacklist', key='per-contig-blacklist', undecided=True)
             continue
